@@ -16,7 +16,7 @@ import common as C
 import imp_run
 
 PROP = "C12"
-PROOF_FILES = ["proofs/ImpProofs.v", "props/C12.v"]
+PROOF_FILES = ["proofs/ImpProofs.v", "proofs/ImpReach.v", "props/C12.v"]
 
 
 def leaked(meta) -> list[str]:
